@@ -103,7 +103,15 @@ fn case_from_desc(w: &World, desc: Descriptor<Key>) -> Option<(Case, bool)> {
     match &desc {
         Descriptor::Bare(b) => {
             take!(b.as_inner(), BareCtx);
-            kind = if desc.script_pubkey().is_p2pk() { "barepk" } else { "bare" };
+            // inner.rs dispatches p2pk- and p2pkh-shaped bare scripts as key-only outputs
+            let spk = desc.script_pubkey();
+            kind = if spk.is_p2pk() {
+                "barepk"
+            } else if spk.is_p2pkh() {
+                "pkh"
+            } else {
+                "bare"
+            };
         }
         Descriptor::Pkh(p) => {
             keys.push(w.key_index(p.as_inner()));
@@ -506,14 +514,30 @@ fn mutants(base: &Spend, kind: &str, m: &MutCtx, rng: &mut Rng, budget: usize) -
     let items = ssig_items(Script::from_bytes(&base.ssig)).unwrap_or_default();
     // candidate triples (vector id, index, kind)
     let mut cands: Vec<(u8, usize, &str)> = Vec::new();
+    // structural elements (script, control block, redeem script) get the generic kinds only
+    const STRUCT_KINDS: &[&str] = &["drop", "dup", "swap", "empty", "one", "junk"];
+    let wn = base.wit.len();
+    let w_struct = |i: usize| match kind {
+        "wsh" | "shwsh" => i + 1 == wn,
+        "tr" => wn >= 2 && i + 2 >= wn,
+        _ => false,
+    };
+    let s_struct = |i: usize| match kind {
+        "sh" | "shwsh" | "shwpkh" => i + 1 == items.len(),
+        _ => false,
+    };
     for i in 0..base.wit.len() {
         for k in MUT_KINDS {
-            cands.push((0, i, k));
+            if !w_struct(i) || STRUCT_KINDS.contains(k) {
+                cands.push((0, i, k));
+            }
         }
     }
     for i in 0..items.len() {
         for k in MUT_KINDS {
-            cands.push((1, i, k));
+            if !s_struct(i) || STRUCT_KINDS.contains(k) {
+                cands.push((1, i, k));
+            }
         }
     }
     // Fisher-Yates with the seeded generator
